@@ -3,7 +3,7 @@
 # one after the other (each uses all cores); logs under /verif/logs/ (not committed), one summary line per check.
 export GOFLAGS=-mod=mod GOPROXY=off GOSUMDB=off GOTOOLCHAIN=local
 seed=$1; shift
-props=${@:-C02 C16 C04 C05 C12 C06 C03 C18 C17 C08 C10}
+props=${@:-C09 C02 C16 C04 C05 C12 C06 C03 C18 C17 C08 C10}
 cd /verif; mkdir -p logs
 for p in $props; do
   s=$(date +%s)
